@@ -254,8 +254,8 @@ func (g *GSchema) walk(f func(*GSchema)) {
 		x.walk(f)
 	}
 	g.Items.walk(f)
-	for _, x := range g.Props {
-		x.walk(f)
+	for _, k := range sortedKeys(g.Props) {
+		g.Props[k].walk(f)
 	}
 	g.Ap.walk(f)
 }
